@@ -182,8 +182,8 @@ POLICIES = ["uniform", "racer", "late", "burst", "starve"]
 
 def make_jobs(tier, seed):
     jobs = []
-    rounds = 6 if tier == "quick" else 12
-    nseeds = 1 if tier == "quick" else 3
+    rounds = 8 if tier == "quick" else 30
+    nseeds = 2 if tier == "quick" else 8
     for i, (N, P) in enumerate(layouts(tier)):
         for k in range(nseeds):
             env = {"YGM_COMM_ROUTING": ROUTINGS[(i + k + seed) % 3]}
@@ -325,7 +325,7 @@ ASYNC_RES = {"sum": lambda R, r: R * (R + 1) // 2, "min": lambda R, r: 1, "max":
              "logical_and": lambda R, r: 1, "logical_or": lambda R, r: 1 if R > 1 else 0, "is_same": lambda R, r: 1}
 
 
-def eval_async(job, sr, res, prims_ok):
+def eval_async(job, sr, res, use_model=True):
     R = job["nodes"] * job["ppn"]
     base = job_id(job)
     if sr.verdict != "ok":
